@@ -262,7 +262,7 @@ PROPS["C10"] = {
 
 PROPS["C08"] = {
     "level": "other",
-    "rules": [p_bitmap.dom_bitmap, p_bitmap.align_cover, p_bitmap.prov_map, p_bitmap.render_geom, only(p_symbols.tab_sym, SYM_GEOM, "geometry columns")],
+    "rules": [p_bitmap.dom_bitmap, p_bitmap.align_cover, p_bitmap.prov_map, p_bitmap.render_geom, p_bitmap.parse_inv, only(p_symbols.tab_sym, SYM_GEOM, "geometry columns")],
     "explanation": "Clause-level claim. Decided: the rejection clause (last sentence): ZeroWidth exactly on the true edge of the first test "
                    "`width == 0`, every division by width on its false edge, DataSize exactly for len % width != 0, SymbolSize exactly "
                    "for a failed lookup of (width, len/width) in the full catalogue, five error variants; ALIGN-COVER - the finder tests "
